@@ -2,4 +2,8 @@
 EXTENDS Resample
 QuickKs == {-4, 0, 4, 99}
 DeepKs == {-8, -4, 0, 4, 8, 99}
+\* fine ladder: Den = 2^21, log-weights of magnitude up to 12 * 2^21 * ln 2 ~ 1.7e7
+FineDen == 2097152
+FineKs == {0, 4 * FineDen, 12 * FineDen, 99}
+FineBetas == {0, 1, 524288, 524289, 1048576, 1048578}
 ====
